@@ -291,6 +291,7 @@ class WebSocket(object):
         """
         if self.is_closed:
             return
+        state = self.state
         try:
             for message in self.stream.feed(data):
                 if isinstance(message, Response):
@@ -337,7 +338,12 @@ class WebSocket(object):
             # The generator has exited prematurely, due to an exception
             # handling the event.
             log.warning('disconnecting websocket')
-            self.on_disconnect()
+            if self.state is state:
+                self.on_disconnect()
+            elif state.session is not None:
+                # connect() was called again before this (abandoned)
+                # iterator was released; leave the new connection alone
+                state.session.close()
 
     def build_request(self):
         """Get the websocket request (in bytes).
